@@ -79,8 +79,12 @@ func (ss *seedSet) add(name, dec string, data []byte, ntab int) {
 		w, _ := GidWords(data)
 		ngid = len(w)
 	}
+	ndict := 0
+	if dec == "cff" {
+		ndict = len(DictSlots(data))
+	}
 	ss.list = append(ss.list, &Seed{ID: len(ss.list) + 1, Name: name, Dec: dec, Len: len(data), MLen: mlen,
-		NTab: ntab, NGid: ngid, Data: data, Formats: FormatsOf(dec, data)})
+		NTab: ntab, NGid: ngid, NDict: ndict, Data: data, Formats: FormatsOf(dec, data)})
 }
 
 // addFont adds a whole font file, its directory and every table that has a stand-alone decoder.
@@ -187,6 +191,8 @@ func BuildSeeds(lim Limits) ([]*Seed, error) {
 	ss.add("hand/cff-charset1-enc1supp-off2-subrs", "cff", handCFF(cffOpt{charset: 1, enc: 1, supp: true, subrs: true, offSize: [6]int{2, 2, 2, 2, 2, 2}}), 0)
 	ss.add("hand/cff-charset2-enc0supp-off3/4-subrs", "cff", handCFF(cffOpt{charset: 2, enc: 0, supp: true, subrs: true, offSize: [6]int{4, 3, 3, 4, 3, 3}}), 0)
 	ss.add("hand/cff-predefined", "cff", handCFF(cffOpt{charset: -1, enc: -1, offSize: [6]int{1, 1, 1, 1, 1, 1}}), 0)
+	ss.add("hand/cff-cid-5byte-operands", "cff", HandCIDCFF(), 0)
+	ss.add("hand/cff-expertsubset-87", "cff", CFFPredef(87, 2, 1), 0)
 	ss.add("hand/cff-expert", "cff", handCFF(cffOpt{charset: -2, enc: -2, offSize: [6]int{1, 1, 1, 1, 1, 1}}), 0)
 	// long loca: the short-offset glyf seed of the first TrueType font, re-expressed with 32-bit offsets
 	for _, sd := range ss.list {
@@ -649,4 +655,100 @@ func T2AllOperators() []byte {
 	gs := t2(10, 20, op(21), op(11))
 	ls := t2(5, op(6), op(11))
 	return CFFWithCharstrings([][]byte{a, b, c, d, e, f}, [][]byte{gs}, [][]byte{ls})
+}
+
+// CFFPredef is a simple CFF font with n glyphs (all "endchar") that selects the predefined
+// charset id (0 ISOAdobe, 1 Expert, 2 ExpertSubset) and the predefined encoding id (0, 1).
+func CFFPredef(n, charset, enc int) []byte { return CFFCharset(n, charset, enc, nil) }
+
+// CFFCharset is CFFPredef with an optional custom charset (the bytes of a charset structure);
+// the charset operand then is its offset.
+func CFFCharset(n, charset, enc int, custom []byte) []byte {
+	num := func(v int) []byte { return []byte{29, byte(v >> 24), byte(v >> 16), byte(v >> 8), byte(v)} }
+	name := cffIndexBytes(1, []byte("P"))
+	glyphs := make([][]byte, n)
+	for i := range glyphs {
+		glyphs[i] = []byte{14}
+	}
+	chars := cffIndexBytes(2, glyphs...)
+	topLen := 6 + 6 + 6 + 11
+	pos := 4 + len(name) + (3 + 2 + topLen) + 2 + 2
+	if custom != nil {
+		charset = pos
+		pos += len(custom)
+	}
+	top := append(num(charset), 15)
+	top = append(top, append(num(enc), 16)...)
+	top = append(top, append(num(pos), 17)...)
+	pos += len(chars)
+	top = append(top, num(0)...)
+	top = append(top, append(num(pos), 18)...)
+	out := []byte{1, 0, 4, 2}
+	out = append(out, name...)
+	out = append(out, cffIndexBytes(1, top)...)
+	out = append(out, 0, 0, 0, 0)
+	out = append(out, custom...)
+	return append(out, chars...)
+}
+
+// HandCIDCFF is a CID-keyed CFF font laid out by hand (Adobe TN5176) in which every offset and
+// size operand (charset, CharStrings, FDArray, FDSelect, Private size and offset, Subrs) is a
+// 5-byte int32, so that the DICT plan can replace each of them in place.
+func HandCIDCFF() []byte {
+	num := func(v int) []byte { return []byte{29, byte(v >> 24), byte(v >> 16), byte(v >> 8), byte(v)} }
+	name := cffIndexBytes(1, []byte("CID"))
+	strs := cffIndexBytes(1, []byte("Adobe"), []byte("Identity"))
+	charset := []byte{0, 0, 1, 0, 2}
+	fdsel := []byte{0, 0, 0, 0}
+	chars := cffIndexBytes(1, []byte{14}, []byte{32, 10, 14}, []byte{239, 239, 21, 189, 6, 14})
+	priv := append(num(6), 19)
+	lsub := cffIndexBytes(1, []byte{11})
+	const topLen = 7 + 6 + 6 + 7 + 7
+	pos := 4 + len(name) + (3 + 2 + topLen) + len(strs) + 2
+	top := []byte{248, 27, 248, 28, 139, 12, 30} // ROS: SID 391, SID 392, 0
+	top = append(top, append(num(pos), 15)...)
+	pos += len(charset)
+	top = append(top, append(num(pos), 12, 37)...)
+	pos += len(fdsel)
+	top = append(top, append(num(pos), 17)...)
+	pos += len(chars)
+	top = append(top, append(num(pos), 12, 36)...)
+	fdLen := 3 + 2 + 11
+	fd := append(num(len(priv)), num(pos+fdLen)...)
+	fd = append(fd, 18)
+	if len(top) != topLen {
+		panic("HandCIDCFF: top DICT layout")
+	}
+	out := []byte{1, 0, 4, 1}
+	out = append(out, name...)
+	out = append(out, cffIndexBytes(1, top)...)
+	out = append(out, strs...)
+	out = append(out, 0, 0)
+	out = append(out, charset...)
+	out = append(out, fdsel...)
+	out = append(out, chars...)
+	out = append(out, cffIndexBytes(1, fd)...)
+	out = append(out, priv...)
+	return append(out, lsub...)
+}
+
+// CFFWithSubrsOffset is a one-glyph CFF font whose Private DICT carries the given Subrs operand.
+func CFFWithSubrsOffset(subrs int32) []byte {
+	num := func(v int32) []byte { return []byte{29, byte(v >> 24), byte(v >> 16), byte(v >> 8), byte(v)} }
+	name := cffIndexBytes(1, []byte("S"))
+	chars := cffIndexBytes(1, []byte{14})
+	priv := append(num(subrs), 19)
+	const topLen = 17
+	pos := 4 + len(name) + (3 + 2 + topLen) + 2 + 2
+	top := append(num(int32(pos)), 17)
+	pos += len(chars)
+	top = append(top, num(int32(len(priv)))...)
+	top = append(top, append(num(int32(pos)), 18)...)
+	out := []byte{1, 0, 4, 1}
+	out = append(out, name...)
+	out = append(out, cffIndexBytes(1, top)...)
+	out = append(out, 0, 0, 0, 0)
+	out = append(out, chars...)
+	out = append(out, priv...)
+	return append(out, cffIndexBytes(1, []byte{11})...)
 }
